@@ -133,8 +133,27 @@ def run_case(case, seed):
             trans += MN.shape[1] + 2
             if bad:
                 V("linearity", "A.N is not C-linear on probe %s (err %.3g)" % bad[0])
-    # consumer clause
+    # A.N is a value: accumulating onto the operator a caller obtained (the library's own `AHA = A.N; AHA += lamda * I`
+    # idiom) must not change what A.N is
     lam = 0.1
+    if not toep and not viol and len(ish) > 0:
+        import sigpy as sp
+        B = opcat.build(spec, seed)
+        N1 = B.N
+        acc = N1
+        acc += lam * sp.linop.Identity(ish)
+        acc = acc + N1
+        states += 1
+        for label, op in (("the operator obtained before", N1), ("A.N read again", B.N)):
+            try:
+                e = dense.relerr(dense.dense_linop(op), G)
+            except dense.ShapeError as ex:
+                V("normal-after-accumulate", "%s: %s" % (label, ex))
+                continue
+            trans += G.shape[1]
+            if not e <= TOL:
+                V("normal-after-accumulate", "after `AHA = A.N; AHA += 0.1*I`, %s differs from M^H M by %.3g" % (label, e))
+    # consumer clause
     wellposed = len(ish) > 0 and 0 < M.shape[1] <= 16 and M.shape[0] <= 64 and \
         np.linalg.cond(G + lam * np.eye(G.shape[0])) <= 1e6
     if case.get("consumer") and not toep and wellposed and not viol:
@@ -149,6 +168,19 @@ def run_case(case, seed):
         scale = max(1.0, float(np.abs(M.conj().T @ y.ravel()).max()))
         if not np.abs(res).max() <= 1e-6 * scale:
             V("consumer-normal-equations", "LinearLeastSquares(A,y,lamda=0.1) leaves normal-equation residual %.3g" % np.abs(res).max())
+        # the operator a solver was given is still the same operator afterwards, and a second solve agrees
+        try:
+            e = dense.relerr(dense.dense_linop(C.N), G)
+            e1 = dense.relerr(dense.dense_linop(C), M)
+        except dense.ShapeError as ex:
+            e = e1 = float("inf")
+        trans += 2 * G.shape[1]
+        if not (e <= TOL and e1 <= TOL):
+            V("operator-after-consumer", "after LinearLeastSquares(A, y, lamda=0.1).run(): |M(A.N)-M^H M| = %.3g, |M(A)-M| = %.3g" % (e, e1))
+        xb = sp.app.LinearLeastSquares(C, y.copy(), lamda=lam, max_iter=400, tol=1e-14, show_pbar=False).run()
+        resb = G @ np.asarray(xb).ravel() + lam * np.asarray(xb).ravel() - M.conj().T @ y.ravel()
+        if not np.abs(resb).max() <= 1e-6 * scale:
+            V("consumer-normal-equations", "second LinearLeastSquares solve on the same operator leaves normal-equation residual %.3g" % np.abs(resb).max())
         # the other solvers that work through A.N (GradientMethod: gradient A.N x - A^H y; ADMM: inner CG on A.N + ...)
         if case.get("consumer_all_solvers") and np.linalg.cond(G + lam * np.eye(G.shape[0])) <= 50:
             for solver, kw in (("GradientMethod", dict(max_iter=1500)), ("ADMM", dict(max_iter=150, max_cg_iter=20))):
